@@ -35,7 +35,9 @@ def variants(cfg, tier):
     """initial states the history search starts from"""
     v = [("synced", []),
          # a copy-detected file (REP blocks, hashes inherited) whose stripes were never completed, then removed
-         ("copy-partly-synced-removed", [("cp", "d1", "dir/M", "d2", "dir/M"), ("cmd", "sync", "-B", "1"), ("rm", "d2", "dir/M")])]
+         ("copy-partly-synced-removed", [("cp", "d1", "dir/M", "d2", "dir/M"), ("cmd", "sync", "-B", "1"), ("rm", "d2", "dir/M")]),
+         # a hash migration scheduled and not completed
+         ("rehash-pending", [("cmd", "rehash")])]
     if tier == "thorough":
         v += [("copy-partly-synced", [("cp", "d1", "dir/M", "d2", "dir/M"), ("cmd", "sync", "-B", "1")]),
               ("killed-after-parity", [("write", "d2", "B", 900, 0), ("cmd", "sync", "--test-kill-after-sync")])]
